@@ -136,6 +136,14 @@ func (c *Ctx) report(fn *ssa.Function, pos, construct, msg string, und bool, wit
 	if fn != nil {
 		fname = ir.FuncName(fn)
 	}
+	if fn != nil && c.Facts != nil {
+		if why := c.Facts.debugOnlyFunc(fn); why != "" {
+			// code that cannot run in a build of the library (only under Mast.debug, which nothing but the
+			// package's own tests can set): no behaviour a user can observe depends on it
+			c.Obls = append(c.Obls, Obligation{Rule: c.Rule.ID, What: construct + " in " + fname, Pos: pos, Verdict: "ok", Why: "not applicable: " + why, Trivial: true})
+			return &Finding{}
+		}
+	}
 	f := Finding{
 		Rule: c.Rule.ID, Key: c.Rule.ID + "|" + fname + "|" + construct,
 		Pos: pos, Func: fname, Msg: msg, Props: c.attribute(fn, append([]string(nil), c.Rule.Props...)),
